@@ -482,8 +482,84 @@ fn run_model<S: Store>(depth: usize, rep: &mut Report) {
     rep.stats.outcome(&format!("{}:explored", S::NAME));
 }
 
+/// histories that fill a 16-bit index, have inserts refused, then clone and drop: the audit must stay
+/// clean on the original after every (refused) operation, on the clone, and on the clone after
+/// the original is gone
+fn exhaustion_ops() -> Vec<AQuad> {
+    let fresh = |k: usize| ATerm::iri(&format!("http://ex.org/new/{k}"));
+    let filler0: AQuad = ([ATerm::iri("http://ex.org/f/0"), ATerm::iri("http://ex.org/f/1"), ATerm::iri("http://ex.org/f/2")], None);
+    vec![
+        filler0,
+        ([fresh(1), ATerm::iri("http://ex.org/f/1"), ATerm::iri("http://ex.org/f/2")], None),
+        ([fresh(1), fresh(2), ATerm::iri("http://ex.org/f/2")], None),
+        ([fresh(3), fresh(4), fresh(5)], None),
+        ([fresh(6), fresh(7), fresh(8)], Some(fresh(9))),
+        ([ATerm::iri("http://ex.org/f/1"), fresh(10), ATerm::lang("x", "en")], None),
+    ]
+}
+fn exhaustion_one<S: Store>(h: &[usize]) -> (Vec<Violation>, u64) {
+    let filler = |i: usize| -> AQuad { ([ATerm::iri(&format!("http://ex.org/f/{}", 3 * i)), ATerm::iri(&format!("http://ex.org/f/{}", 3 * i + 1)), ATerm::iri(&format!("http://ex.org/f/{}", 3 * i + 2))], None) };
+    // 21844 quads x 3 terms = 65532 terms: 3 free entries remain
+    let nfill = 21844;
+    let opq = exhaustion_ops();
+    let case = json!({"store": S::NAME, "exhaustion": h});
+    match guarded(|| {
+        let mut out: Vec<Violation> = vec![];
+        let mut n = 0u64;
+        let mut s = S::default();
+        for i in 0..nfill {
+            let _ = s.ins(&filler(i));
+        }
+        let mut check = |s: &S, what: &str, out: &mut Vec<Violation>| {
+            n += 1;
+            let issues = s.audit();
+            if !issues.is_empty() {
+                out.push(Violation::new(format!("{}:audit-after-index-exhaustion", S::NAME), format!("{what}: {}", issues[..issues.len().min(3)].join("; ")), case.clone()));
+            }
+        };
+        for op in h {
+            let _ = s.ins(&opq[*op]);
+            check(&s, "original after a (possibly refused) insert", &mut out);
+        }
+        let c = s.clone();
+        check(&c, "clone", &mut out);
+        let terms_before = c.index_terms().len();
+        if terms_before != s.index_terms().len() {
+            out.push(Violation::new(format!("{}:clone-differs-after-index-exhaustion", S::NAME), format!("the clone's index has {terms_before} terms, the original's {}", s.index_terms().len()), case.clone()));
+        }
+        drop(s);
+        check(&c, "clone after the original was dropped", &mut out);
+        (out, n)
+    }) {
+        Ok(r) => r,
+        Err(p) => (vec![Violation::new(format!("{}:panic-after-index-exhaustion", S::NAME), p, case.clone())], 0),
+    }
+}
+/// histories that fill a 16-bit index, have inserts refused, then clone and drop: the audit must stay
+/// clean on the original after every (refused) operation, on the clone, and on the clone after
+/// the original is gone
+fn exhaustion<S: Store>(rep: &mut Report, depth: usize) {
+    use rayon::prelude::*;
+    let mut hists: Vec<Vec<usize>> = vec![];
+    words_upto(exhaustion_ops().len(), depth, &mut |w| hists.push(w.to_vec()));
+    let results: Vec<(Vec<Violation>, u64)> = hists.par_iter().map(|h| exhaustion_one::<S>(h)).collect();
+    for (vs, n) in results {
+        rep.stats.add("validated", n);
+        rep.stats.add("exhaustion_histories", 1);
+        rep.violations.extend(vs);
+    }
+}
+
 pub fn run(tier: Tier) -> Report {
     let mut rep = Report::new("C10", tier);
+    {
+        let xd = tier.pick(2, 3);
+        exhaustion::<sophia_inmem::dataset::small::FastDataset>(&mut rep, xd);
+        exhaustion::<sophia_inmem::dataset::small::LightDataset>(&mut rep, xd);
+        exhaustion::<sophia_inmem::graph::small::FastGraph>(&mut rep, xd);
+        exhaustion::<sophia_inmem::graph::small::LightGraph>(&mut rep, xd);
+        exhaustion::<SimpleTermIndex<u16>>(&mut rep, xd);
+    }
     let d = tier.pick(4, 5);
     run_model::<sophia_inmem::dataset::FastDataset>(d, &mut rep);
     run_model::<sophia_inmem::dataset::LightDataset>(d, &mut rep);
@@ -496,9 +572,10 @@ pub fn run(tier: Tier) -> Report {
     run_model::<SimpleTermIndex<u32>>(d, &mut rep);
     run_model::<SimpleTermIndex<u16>>(d, &mut rep);
     rep.rule = format!(
-        "explicit-state BFS over histories of {} operations on two slots (insert/remove of {} quads incl. owned quoted triples and language-tagged literals, a 12-quad batch crossing hash-table growth thresholds, clone into the other slot, drop, mem::swap, mem::take, new) for 10 store types (Fast/Light x Dataset/Graph x u32/u16 index, SimpleTermIndex<u32|u16>), depth {d}; states deduplicated by (content, index order, clone provenance); in every state the cfg-guarded audit checks that every borrowed string of i2t points into a key owned by the same index (address comparison, no dereference), then index terms and content are compared with the reference",
+        "explicit-state BFS over histories of {} operations on two slots (insert/remove of {} quads incl. owned quoted triples and language-tagged literals, a 12-quad batch crossing hash-table growth thresholds, clone into the other slot, drop, mem::swap, mem::take, new) for 10 store types (Fast/Light x Dataset/Graph x u32/u16 index, SimpleTermIndex<u32|u16>), depth {d}; states deduplicated by (content, index order, clone provenance); in every state the cfg-guarded audit checks that every borrowed string of i2t points into a key owned by the same index (address comparison, no dereference), then index terms and content are compared with the reference; plus, for the five 16-bit store types, every history of <= {} inserts (0..4 new terms each) on an index filled up to 3 free entries, followed by clone and drop of the original, with the audit after every step",
         ops().len(),
-        universe().len()
+        universe().len(),
+        tier.pick(2, 3)
     );
     rep.bounds = json!({"depth": d, "ops": ops().len(), "quads": universe().len()});
     rep.assumptions = vec![
@@ -510,6 +587,16 @@ pub fn run(tier: Tier) -> Report {
 pub fn replay(case: &Value) -> Vec<Violation> {
     let store = case["store"].as_str().unwrap_or("").to_string();
     let hist: Vec<String> = case["history"].as_array().map(|a| a.iter().filter_map(|x| x.as_str().map(String::from)).collect()).unwrap_or_default();
+    if let Some(h) = case.get("exhaustion").and_then(|a| a.as_array()) {
+        let h: Vec<usize> = h.iter().filter_map(|x| x.as_u64()).map(|x| x as usize).collect();
+        return match store.as_str() {
+            "small::FastDataset" => exhaustion_one::<sophia_inmem::dataset::small::FastDataset>(&h).0,
+            "small::LightDataset" => exhaustion_one::<sophia_inmem::dataset::small::LightDataset>(&h).0,
+            "small::FastGraph" => exhaustion_one::<sophia_inmem::graph::small::FastGraph>(&h).0,
+            "small::LightGraph" => exhaustion_one::<sophia_inmem::graph::small::LightGraph>(&h).0,
+            _ => exhaustion_one::<SimpleTermIndex<u16>>(&h).0,
+        };
+    }
     fn go<S: Store>(hist: &[String]) -> Vec<Violation> {
         let m = Model::<S>(PhantomData);
         let names: Vec<String> = (0..m.n_ops()).map(|i| m.op_name(i)).collect();
